@@ -359,8 +359,8 @@ func (c *Call) Coq() string {
 	if c.Disabled != nil {
 		dis = "(Some " + c.Disabled.Coq() + ")"
 	}
-	return fmt.Sprintf("{| c_id := %s; c_callee := %s; c_mapped := %s; c_binds := [%s]; c_disabled := %s |}",
-		cb(c.ID), cb(c.Callee), mapped, strings.Join(binds, "; "), dis)
+	return fmt.Sprintf("{| c_id := %s; c_callee := %s; c_mapped := %s; c_binds := [%s]; c_disabled := %s; c_preflight := %v |}",
+		cb(c.ID), cb(c.Callee), mapped, strings.Join(binds, "; "), dis, c.Preflight)
 }
 
 func (s *SExp) Coq() string {
@@ -511,4 +511,35 @@ func sortedKeys(m map[string]*SExp) []string {
 	}
 	sort.Strings(ks)
 	return ks
+}
+
+// MappedPipelinePaths lists the call paths (dot-joined, from the top call) of
+// every mapped call of a pipeline, wherever it is reached.
+func (p *Program) MappedPipelinePaths() []string {
+	pls := map[string]*Pipeline{}
+	for _, pl := range p.Pipelines {
+		pls[pl.Name] = pl
+	}
+	var out []string
+	var walk func(pl *Pipeline, path string, depth int)
+	walk = func(pl *Pipeline, path string, depth int) {
+		if depth > 8 {
+			return
+		}
+		for _, c := range pl.Calls {
+			callee, ok := pls[c.Callee]
+			if !ok {
+				continue
+			}
+			cp := path + "." + c.ID
+			if c.Mapped != "" {
+				out = append(out, cp)
+			}
+			walk(callee, cp, depth+1)
+		}
+	}
+	if top, ok := pls[p.Top.Callee]; ok {
+		walk(top, p.Top.ID, 0)
+	}
+	return out
 }
